@@ -2403,10 +2403,16 @@ class Affine:
 
         return (-self).__rshift__(-other)
 
-    def __call__(self):
+    def __call__(self, *args):
 
         if self.model.mtype != 'R':
             raise ValueError('Unsupported affine expression.')
+
+        for arg in args:
+            # realisations of random variables do not affect a deterministic
+            # expression (e.g. a decision rule without declared adaptation)
+            if not isinstance(arg, RandVal):
+                raise TypeError('Unsupported type for defining random variable values.')
 
         if self.model.solution is None:
             raise SyntaxError('No available solution!')
